@@ -71,6 +71,11 @@ CHECKS = {
             "Every gate with every applicable aliasing pattern is executed on every back-end; low-level evaluation functions run on generated small key sets with complete key snapshots.",
             "Snapshots are 64-bit hashes of the arrays (collision probability negligible).",
             "DESIGN.md §3 C15"),
+    "C05": ("exploration", "E1",
+            "rapidcheck over sequences of 1..6 objects of the 14 exportable types written back-to-back into one stream, both transports in both directions; oracle = field equality (== on doubles), exact consumption, byte-identical re-export, functional equivalence of re-imported cloud/secret keys",
+            "Generated object histories with full-precision real parameters and extreme contents, plus both default parameter sets and default-size key sets on every back-end.",
+            "Objects are constructed through public constructors/fields; cloud and secret key sets use N=1024 (the importer rebuilds the FFT key).",
+            "DESIGN.md §3 C05"),
 }
 
 ALL = ["C%02d" % k for k in range(1, 21)]
